@@ -293,6 +293,9 @@ def run(ctx):
     okn, whyn = _nd_mask(fnn)
     ctx.check(okn, "C03.f", "HistogramND.fill_n:mask", whyn, whyn, fnn.where)
 
+    wiring.params_used(ctx, "C03.f", [m.cls(c_).methods[x] for c_ in ("Histogram1D", "HistogramND") for x in ("fill", "fill_n", "find_bin")],
+                       "fill-family:options-read")
+
     # ---- C03.e coercion before any accumulation (shared with C13.a) -----------------------------------------------
     ctx.rule("C03.e", "fill / fill_n coerce the dtype for the weight(s) before the first store, so neither contents nor missed values are truncated", 4)
     from rules import c13
